@@ -4,8 +4,8 @@ its own scratch copy of the repository snapshot (NSTD_REPO), so that /repo itsel
 
   partest.py <workers> seed|harm [<id> ...]        (default ids: all of that kind)
 
-Meant for `vp run --with-repo` snapshots (after `python3 tools/setup.py`): the base copy is $VP_RUN_REPO, else a
-`git worktree` of /repo HEAD.  Changes of one property always go to the same worker (they share the evidence
+Meant for `vp run --with-repo` snapshots (after `python3 tools/setup.py`): every worker gets a `git worktree` of /repo at the
+commit of $VP_RUN_REPO (else of /repo HEAD).  Changes of one property always go to the same worker (they share the evidence
 file and the generated Lean files of their area); areas that share a Lean area (C04/C05, C13/C14) share a worker.
 Results land in seeded/<id>/result.json / harmless/<id>/result.json of the tree the command runs in.
 """
@@ -34,17 +34,16 @@ def main():
     for p in sorted(byprop, key=lambda q: -len(byprop[q])):
         min(workers, key=len).extend(byprop[p])
     src = os.environ.get("VP_RUN_REPO")
+    head = subprocess.check_output(["git", "-C", src or "/repo", "rev-parse", "HEAD"], text=True).strip()
     tmp = Path(tempfile.mkdtemp(prefix="partest-", dir="/tmp"))
     procs = []
     for k, w in enumerate(workers):
         if not w:
             continue
         repo = tmp / f"repo{k}"
-        if src:
-            shutil.copytree(src, repo, symlinks=True, ignore=shutil.ignore_patterns("_build"))
-        else:
-            subprocess.run(["git", "-C", "/repo", "worktree", "add", "--detach", str(repo), "HEAD"], check=True,
-                           stdout=subprocess.DEVNULL)
+        # the snapshot is itself a worktree of /repo: take a further worktree at the same commit (a file copy would share its index)
+        subprocess.run(["git", "-C", "/repo", "worktree", "add", "--detach", str(repo), head], check=True,
+                       stdout=subprocess.DEVNULL, stderr=subprocess.DEVNULL)
         env = dict(os.environ, NSTD_REPO=str(repo), TMPDIR=str(tmp))
         cmd = ["python3", "tools/seedtest.py"] + w if kind == "seed" else ["python3", "tools/harmtest.py", "run"] + w
         procs.append((k, subprocess.Popen(cmd, cwd=VERIF, env=env, stdout=open(tmp / f"log{k}", "w"), stderr=subprocess.STDOUT)))
@@ -52,9 +51,8 @@ def main():
         p.wait()
         sys.stdout.write((tmp / f"log{k}").read_text())
         sys.stdout.flush()
-    if not src:
-        for k, _ in procs:
-            subprocess.run(["git", "-C", "/repo", "worktree", "remove", "--force", str(tmp / f"repo{k}")])
+    for k, _ in procs:
+        subprocess.run(["git", "-C", "/repo", "worktree", "remove", "--force", str(tmp / f"repo{k}")])
     shutil.rmtree(tmp, ignore_errors=True)
 
 
